@@ -12,6 +12,7 @@ import (
 	gsmsg "github.com/ipfs/go-graphsync/message"
 	"github.com/ipfs/go-graphsync/zzverif/vsched"
 	"github.com/ipld/go-ipld-prime"
+	cidlink "github.com/ipld/go-ipld-prime/linking/cid"
 	"github.com/libp2p/go-libp2p/core/peer"
 
 	"verif/core"
@@ -32,6 +33,7 @@ type c20Case struct {
 	Gated      bool   `json:"event_level"`
 	PauseFirst bool   `json:"first_request_paused_by_block_hook,omitempty"` // the first request pauses itself at its first block and is never resumed
 	HoldFirst  bool   `json:"responders_first_send_stalls,omitempty"`       // the responder\'s first message stalls until all responses are queued behind it (they travel batched)
+	Tight      bool   `json:"responder_allowance_two_blocks,omitempty"`     // with HoldFirst: the responder may hold two blocks in memory per peer, so the first response stops early behind the stalled send and the others overlap with it
 }
 
 func (c c20Case) String() string {
@@ -41,6 +43,9 @@ func (c c20Case) String() string {
 	}
 	if c.HoldFirst {
 		p += "; the responder's first send stalls so that the responses are batched, and the first request's block hook is slow"
+	}
+	if c.Tight {
+		p += "; the responder's memory allowance for the peer is two blocks"
 	}
 	return fmt.Sprintf("%d requests (%s) selector %s workers Q=%d R=%d dedup keys %s%s", c.N, c.Pair, c.Sel, c.Workers[0], c.Workers[1], c.Keys, p)
 }
@@ -58,7 +63,8 @@ type c20Obs struct {
 	panicked string
 	events   int
 	wire     []string
-	dup      []string // blocks transmitted twice for one request
+	dup      []string          // blocks transmitted twice for one request
+	where    map[string]string // "<request>/<block>": where the block's bytes travelled relative to the request's first present entry for it
 }
 
 // c20World builds the DAG and the roots the requests ask for.
@@ -95,7 +101,17 @@ func c20Run(cfg vsched.Config, cs c20Case, only int) (*c20Obs, *vsched.Sched) {
 			rs.Put(l, d.Data[i])
 		}
 		q := f.AddNode(peer.ID("Q"), qs, gsimpl.MaxInProgressOutgoingRequests(uint64(cs.Workers[0])))
-		r := f.AddNode(peer.ID("R"), rs, gsimpl.MaxInProgressIncomingRequests(uint64(cs.Workers[1])))
+		ropts := []gsimpl.Option{gsimpl.MaxInProgressIncomingRequests(uint64(cs.Workers[1]))}
+		if cs.Tight {
+			// a two-block allowance: behind the stalled send the first response stops early, so the others
+			// really overlap with it on the responder (cross-request de-duplication happens)
+			two := 0
+			for _, b := range d.Data {
+				two = max(two, 2*len(b))
+			}
+			ropts = append(ropts, gsimpl.MaxMemoryPerPeerResponder(uint64(two)))
+		}
+		r := f.AddNode(peer.ID("R"), rs, ropts...)
 		if cs.PauseFirst && only < 0 {
 			pausedOnce := false
 			q.GS.RegisterIncomingBlockHook(func(p peer.ID, rd graphsync.ResponseData, b graphsync.BlockData, ha graphsync.IncomingBlockHookActions) {
@@ -209,11 +225,65 @@ func c20Run(cfg vsched.Config, cs c20Case, only int) (*c20Obs, *vsched.Sched) {
 				}
 			}
 		}
+		// where the bytes of a block listed present for a request travel, relative to the first such listing:
+		// in the same message, in an earlier one (sent for another request), only in a later one, or never
+		o.where = map[string]string{}
+		var carriedAt []map[string]bool
+		for _, w := range f.Net.Wire {
+			if w.From != r.ID {
+				continue
+			}
+			in := map[string]bool{}
+			for _, b := range w.Msg.Blocks() {
+				in[b.Cid().KeyString()] = true
+			}
+			carriedAt = append(carriedAt, in)
+		}
+		mi := 0
+		for _, w := range f.Net.Wire {
+			if w.From != r.ID {
+				continue
+			}
+			for _, rsp := range w.Msg.Responses() {
+				md, ok := rsp.Metadata().(gsmsg.GraphSyncLinkMetadata)
+				if !ok {
+					continue
+				}
+				for _, e := range md.RawMetadata() {
+					k := e.Link.KeyString()
+					id := harness.ShortID(rsp.RequestID()) + "/" + d.Name(cidlink.Link{Cid: e.Link})
+					if _, seen := o.where[id]; seen || e.Action != graphsync.LinkActionPresent {
+						continue
+					}
+					o.where[id] = "never"
+					for j := len(carriedAt) - 1; j > mi; j-- {
+						if carriedAt[j][k] {
+							o.where[id] = "later"
+						}
+					}
+					for j := 0; j < mi; j++ {
+						if carriedAt[j][k] {
+							o.where[id] = "earlier"
+						}
+					}
+					if carriedAt[mi][k] {
+						o.where[id] = "same"
+					}
+				}
+			}
+			mi++
+		}
 		for _, w := range f.Net.Wire {
 			if w.From == r.ID {
 				var parts []string
 				for _, rsp := range w.Msg.Responses() {
-					parts = append(parts, fmt.Sprintf("%s:%dmd", harness.ShortID(rsp.RequestID()), rsp.Metadata().Length()))
+					acts := ""
+					if md, ok := rsp.Metadata().(gsmsg.GraphSyncLinkMetadata); ok {
+						for _, e := range md.RawMetadata() {
+							acts += string(e.Action[:1])
+						}
+					}
+					parts = append(parts, fmt.Sprintf("%s:%s", harness.ShortID(rsp.RequestID()), acts))
 				}
 				o.wire = append(o.wire, fmt.Sprintf("[%s %dblk]", strings.Join(parts, " "), len(w.Msg.Blocks())))
 			}
@@ -262,6 +332,25 @@ func c20Judge(cs c20Case, o *c20Obs) *core.Violation {
 		if !got.closed {
 			return v("request-never-completes", fmt.Sprintf("%s did not terminate; alone it delivers [%s]", name, shorten(want.visits)))
 		}
+		if got.visits != want.visits || strings.Join(got.missing, ";") != strings.Join(want.missing, ";") {
+			// cause: every block this request misses beyond its solo run was de-duplicated against another
+			// request on the responder, and the requestor read it from its store before it was there:
+			//  later   - the entry left in a message before the one carrying the block (responder-side order)
+			//  earlier - the block came in an earlier message for a request that had not stored it yet
+			kinds := map[string]bool{}
+			for _, m := range got.missing {
+				if !strings.Contains(";"+strings.Join(want.missing, ";")+";", ";"+m+";") {
+					blk := strings.TrimPrefix(m[:strings.Index(m, "@")], "missing:")
+					kinds[o.where[fmt.Sprintf("r%d/%s", 70+i, blk)]] = true
+				}
+			}
+			if len(kinds) == 1 && kinds["later"] {
+				return v("present-entry-sent-ahead-of-the-deduplicated-block", fmt.Sprintf("%s lost %v: the responder listed each as present without bytes in a message that left before the message carrying the block for another request (wire %v)", name, got.missing, o.wire))
+			}
+			if len(kinds) == 1 && kinds["earlier"] {
+				return v("deduplicated-block-read-before-the-other-request-stored-it", fmt.Sprintf("%s lost %v: each was sent earlier for another request, which had not verified and stored it when this request looked for it locally (wire %v)", name, got.missing, o.wire))
+			}
+		}
 		if got.visits != want.visits {
 			return v("delivered-nodes-differ-from-solo-run", fmt.Sprintf("%s delivered [%s], alone [%s]; errors %v", name, shorten(got.visits), shorten(want.visits), append(got.missing, got.other...)))
 		}
@@ -300,6 +389,7 @@ func c20Cases(thorough bool) []c20Case {
 						if w[0] == 2 && (thorough || w[1] == 2) {
 							out = append(out, c20Case{Pair: pair, Sel: sn, Workers: w, Keys: keys, N: n, PauseFirst: true})
 							out = append(out, c20Case{Pair: pair, Sel: sn, Workers: w, Keys: keys, N: n, HoldFirst: true})
+							out = append(out, c20Case{Pair: pair, Sel: sn, Workers: w, Keys: keys, N: n, HoldFirst: true, Tight: true})
 						}
 					}
 				}
@@ -369,8 +459,12 @@ func init() {
 			}
 			o, _ := c20Run(core.CfgFromReplay(raw), w.Label, -1)
 			if v := c20Judge(w.Label, o); v != nil {
-				return v.Signature + ": " + v.What
+				return v.Signature + ": " + v.What + fmt.Sprintf(" (events=%d wire=%v)", o.events, o.wire)
 			}
-			return fmt.Sprintf("ok (events=%d wire=%v)", o.events, o.wire)
+			var per []string
+			for _, rq := range o.reqs {
+				per = append(per, fmt.Sprintf("closed=%v missing=%v other=%v nodes=%d", rq.closed, rq.missing, rq.other, strings.Count(rq.visits, "|")+1))
+			}
+			return fmt.Sprintf("ok (events=%d wire=%v per-request=%v)", o.events, o.wire, per)
 		}})
 }
